@@ -60,14 +60,15 @@ pub const IMAX: i32 = i32::MAX;
 pub fn ints_boundary(thorough: bool) -> Vec<i32> {
     let mut v = vec![IMIN, IMIN + 1, -3, -1, 0, 1, 2, 3, 7, IMAX - 1, IMAX];
     if thorough {
-        v.extend([-2, 4, 5, 100, 65536, -65536]);
+        // more interior values and the boundaries of the shortcuts visible in the code / in f32 and i16
+        v.extend([-2, 4, 5, 100, 65536, -65536, 46340, 46341, -46341, 32767, -32768, 16_777_216, 16_777_217, -16_777_217, 1_073_741_824, -1_073_741_824]);
     }
     v
 }
 pub fn floats_boundary(thorough: bool) -> Vec<f32> {
     let mut v = vec![f32::NEG_INFINITY, f32::MIN, -2.5, -1.0, -0.0, 0.0, f32::MIN_POSITIVE, 0.5, 1.0, 2.5, f32::MAX, f32::INFINITY, f32::NAN];
     if thorough {
-        v.extend([0.0004, 1e10, -0.5, 3.0e9, -3.0e9]);
+        v.extend([0.0004, 1e10, -0.5, 3.0e9, -3.0e9, 1e-45, -1e-45, 16_777_216.0, 2_147_483_648.0, -2_147_483_904.0, 0.1, 3.1415927, 1e38, -1e-38, 2_147_483_520.0, 0.99999994]);
     }
     v
 }
